@@ -450,7 +450,19 @@ def run_property(prop, tier, seed):
             except subprocess.TimeoutExpired:
                 p.kill()
                 p.wait()
-                harness_errors.append(f"shard {i}: timed out after {hard}s (inconclusive)")
+                cur = os.path.join(work, "current_case.json")
+                where = ""
+                if os.path.exists(cur):
+                    # keep the case that was running, so that the stall can be looked into (it is no verdict)
+                    try:
+                        rd = os.environ.get("VERIF_REPLAY_DIR") or os.path.join(env.VERIF_DIR, "replays")
+                        os.makedirs(os.path.join(rd, prop), exist_ok=True)
+                        dst = os.path.join(rd, prop, f"stalled_shard{i}.json")
+                        json.dump({"property": prop, "kind": "stalled (no verdict)", "case": json.load(open(cur))}, open(dst, "w"), indent=1)
+                        where = f"; the case that was running: {dst}"
+                    except Exception:
+                        pass
+                harness_errors.append(f"shard {i}: timed out after {hard}s (inconclusive){where}")
                 continue
             finally:
                 log.close()
